@@ -144,13 +144,19 @@ fn analyze(
     req: mpsc::Receiver<Request>,
     noti: mpsc::Sender<Notification>,
 ) {
-    let path = uri.to_file_path().unwrap();
-    let parser_path = path.parent().unwrap().join("parser.rs");
+    // documents that were never saved have no file path (e.g. `untitled:Untitled-1`)
+    let path = uri
+        .to_file_path()
+        .unwrap_or_else(|_| std::path::PathBuf::from(uri.path()));
+    let parser_path = path
+        .parent()
+        .unwrap_or(std::path::Path::new(""))
+        .join("parser.rs");
     let mut diags = vec![];
 
     let cst = Parser::new(&source, &mut diags).parse(&mut diags);
     let sema = SemanticPass::run(&cst, &mut diags);
-    let file = SimpleFile::new(path.to_str().unwrap(), source.as_str());
+    let file = SimpleFile::new(path.to_str().unwrap_or_default(), source.as_str());
 
     while let Ok(req) = req.recv() {
         match req {
